@@ -18,6 +18,8 @@ INVARIANTS
   RefusesMismatch
   CarriesSignature
   UnsignedWhenOff
+  VerifiesUnderPublished
+  SignedWhateverIdpWants
   PinnedDiffersOnlyWhereNamed
   Emit
 PROPERTIES
